@@ -14,7 +14,7 @@ ID = "C20"
 RULE = (
     "case = default TOML tree (tables nested up to 3 deep over a small key pool; scalar ints/floats/bools/strings with #, =, quotes, brackets, non-ASCII; "
     "one-line arrays; with an existing user file also multi-line strings whose lines look like comments, headers or assignments) rendered by the harness's own writer with comment and blank lines, x a user tree derived from it (each key dropped/kept/changed incl. "
-    "scalar type changes and, rarely, a table replaced by a plain value or a plain value by a (possibly empty) table, plus user-only keys and tables) x file exists | file absent; table sections may be written in any order (e.g. [server.tls], [ui], [server]) and leaf tables as one-line inline tables; the user may edit the file between two loads. Both texts are first checked with tomllib against the generated trees. "
+    "scalar type changes (one user tree in eight restates the whole default tree with some values in another TOML type that compares equal in Python, true / 1 / 1.0) and, rarely, a table replaced by a plain value or a plain value by a (possibly empty) table, plus user-only keys and tables) x file exists | file absent; table sections may be written in any order (e.g. [server.tls], [ui], [server]) and leaf tables as one-line inline tables; the user may edit the file between two loads. Both texts are first checked with tomllib against the generated trees. "
     "Oracle: reference overlay on plain dicts (user wins at leaves, recurse on tables, keep both sides' private keys); file bytes unchanged when it existed; when absent: "
     "first load == defaults and creates a file, two further loads == defaults with file bytes unchanged, created file parses as TOML; the user may then edit the generated file and the next load must overlay it. One case in six runs with XDG_CONFIG_HOME set but empty (the file then lives under ~/.config). "
     "Non-trivial = overlap at depth >= 2 with both a changed and an untouched sibling, or the absent-file path with a nested table."
@@ -95,6 +95,23 @@ def _derive(draw, base, depth):
     return u
 
 
+_TWINS = {("bool", True): [1], ("bool", False): [0], ("int", 1): [True, 1.0], ("int", 0): [False, 0.0], ("int", 3): [3.0], ("float", 3.0): [3], ("int", -5): [-5.0], ("int", 2): [2.0]}
+
+
+@st.composite
+def _twin(draw, base):
+    """The same tree with some values replaced by another TOML type that compares equal in Python (true / 1 / 1.0): a user who
+    sets such a value has set it - the effective value has the user's type."""
+    u = {}
+    for k, v in base.items():
+        if isinstance(v, dict):
+            u[k] = draw(_twin(v))
+        else:
+            alts = _TWINS.get((type(v).__name__, v), []) if isinstance(v, (bool, int, float)) else []
+            u[k] = draw(st.sampled_from(alts)) if alts and draw(st.booleans()) else copy.deepcopy(v)
+    return u
+
+
 def _one_line(t):
     if isinstance(t, dict):
         return {k: _one_line(v) for k, v in t.items()}
@@ -107,6 +124,8 @@ def _one_line(t):
 def strategy(draw, tier="quick"):
     d = draw(_tree(3))
     u = draw(_derive(d, 3))
+    if draw(st.integers(0, 7)) == 0:
+        u = draw(_twin(d))  # the user's file restates every default, some of them in another type
     exists = draw(st.sampled_from([True, True, False]))
     if not exists:
         d, u = _one_line(d), _one_line(u)
